@@ -25,15 +25,14 @@ RULE = ("cases: (a) exhaustive CAR checks over all ordered pairs of ladder opera
 ASSUMPTIONS = ["vlib.fock ladder matrices define the fermionic algebra; vlib.refsim dense Pauli words the qubit algebra",
                "one-configuration sectors of the combinatorial mapping (zero qubits) are outside its domain"]
 ANCHORS = [
-    ("tangelo/toolboxes/qubit_mappings/mapping_transform.py", "77-171", "dispatch, casting and spin re-ordering"),
-    ("tangelo/toolboxes/qubit_mappings/jkmn.py", "60-166", "ternary-tree Majorana assignment"),
-    ("tangelo/toolboxes/qubit_mappings/symmetry_conserving_bravyi_kitaev.py", "42-199", "scBK parity factors and qubit removal"),
-    ("tangelo/toolboxes/qubit_mappings/combinatorial.py", "97-262", "combinatorial basis, phase rule, Pauli decomposition"),
-    ("tangelo/toolboxes/qubit_mappings/hcb.py", "25-93", "seniority-zero integrals and boson-to-qubit map"),
-    ("tangelo/toolboxes/operators/operators.py", "112-156", "coefficient tensors"),
+    ("tangelo/toolboxes/qubit_mappings/mapping_transform.py", "fermion_to_qubit_mapping,make_up_then_down", "dispatch, casting and spin re-ordering"),
+    ("tangelo/toolboxes/qubit_mappings/jkmn.py", "_jkmn_dict,jkmn", "ternary-tree Majorana assignment"),
+    ("tangelo/toolboxes/qubit_mappings/symmetry_conserving_bravyi_kitaev.py", "symmetry_conserving_bravyi_kitaev,edit_operator_for_spin,prune_unused_indices", "scBK parity factors and qubit removal"),
+    ("tangelo/toolboxes/qubit_mappings/combinatorial.py", "one_body_op_on_state,recursive_mapping,combinatorial", "combinatorial basis, phase rule, Pauli decomposition"),
+    ("tangelo/toolboxes/qubit_mappings/hcb.py", "hard_core_boson_operator,boson_to_qubit_mapping", "seniority-zero integrals and boson-to-qubit map"),
+    ("tangelo/toolboxes/operators/operators.py", "get_coeffs", "coefficient tensors"),
 ]
-REQUIRED = {"car": 300, "adjoint": 40, "product": 40, "linearity": 40, "constant": 20, "spectrum_full_space": 40, "jw_matrix": 20,
-            "scbk_spectrum": 10, "scbk_algebra": 20, "hcb_matrix": 8, "combinatorial_spectrum": 8}
+REQUIRED = {"car": 300, "adjoint": 40, "product": 40, "linearity": 25, "constant": 20, "spectrum_full_space": 40, "jw_matrix": 20, "scbk_spectrum": 9, "scbk_algebra": 20, "hcb_matrix": 4, "combinatorial_spectrum": 8}
 BUDGET = {"quick": 240, "thorough": 3000}
 TOL = 1e-9
 FULL = ["JW", "BK", "JKMN"]
